@@ -122,8 +122,8 @@ type Perm struct {
 // ---- eager loading with composite keys (C11)
 
 type Folder struct {
-	Doc   int    `gorm:"primaryKey;autoIncrement:false"`
-	Rev   int    `gorm:"primaryKey;autoIncrement:false"`
+	Doc   int `gorm:"primaryKey;autoIncrement:false"`
+	Rev   int `gorm:"primaryKey;autoIncrement:false"`
 	Name  string
 	Notes []Note `gorm:"foreignKey:FolderDoc,FolderRev;references:Doc,Rev"`
 }
